@@ -68,7 +68,7 @@ func TestCrashChild(t *testing.T) {
 		t.Fatal(err)
 	}
 	s := NewSession(w, cs.Header, cs.Tag, pickTables(cs.Table)[0], GoAdapter{})
-	s.Variant = cs.Flush
+	s.Variant = 0 // compaction in a crash child flushes after every deletion (threshold 1)
 	if len(cs.Header.Jobs) > 0 {
 		if err := s.preassertIDs(); err != nil {
 			t.Fatal(err)
@@ -227,8 +227,15 @@ func TestCrash(t *testing.T) {
 					_ = os.RemoveAll(wdir)
 					continue
 				}
-				check := func(o *Obs, jo []JobObs, relax *Obs) (*Session, error) {
-					s := NewSession(w, hdr, cs.Tag, tb, GoAdapter{})
+				check := func(o *Obs, jo []JobObs, relax *Obs) (s *Session, err error) {
+					s = NewSession(w, hdr, cs.Tag, tb, GoAdapter{})
+					defer func() {
+						if rec := recover(); rec != nil {
+							// reading the recovered hub must not panic
+							s.diverge("panic-after-recovery", nil, "read APIs answer", fmt.Sprint(rec), "")
+							err = nil
+						}
+					}()
 					s.NoAt = true
 					s.clock = o.Clock
 					s.relaxFull = relax
